@@ -13,7 +13,6 @@ Inductive authm := ABasic | APost | ANone | APkjwt.
 
 Record client := mkClient {
   c_id : string; c_secret : string;
-  c_web : bool;          (* ApplicationType == Web  (IsConfidentialType) *)
   c_auth : authm;        (* AuthMethod *)
   c_dev : bool;          (* device_code grant registered *)
   c_refresh : bool }.    (* refresh_token grant registered *)
@@ -115,6 +114,17 @@ Definition legacy_client (cl : list client) (cr : creds) : client + string :=
            end
        end.
 
+(* deviceClientAuthenticated (the code as fixed for C05): public clients need no
+   credential, the others the Basic-authenticated secret; an assertion is never
+   sent in this model, so a private_key_jwt client is never authenticated.
+   AuthMethodPost is enabled on the provider. *)
+Definition prov_authenticated (c : client) (authd : bool) : bool :=
+  match c_auth c with
+  | ANone => true
+  | APkjwt => false
+  | ABasic | APost => authd
+  end.
+
 (* ---- createDeviceAuthorization ----------------------------------------- *)
 Definition ns_of_s (s : Z) : Z := (s * 1000000000)%Z.
 
@@ -174,7 +184,7 @@ Definition authz (g : cfg) (cl : list client) (st : store) (r : router) (cr : cr
               else (st, RErr "unauthorized_client")
           end
       end
-  | RLegacy =>                         (* withClient; grant check as fixed for F21 *)
+  | RLegacy =>                         (* withClient; DeviceAuthorization with the grant check (F21 fixed) *)
       match legacy_client cl cr with
       | inr e => (st, RErr e)
       | inl c =>
@@ -195,7 +205,7 @@ Definition poll (cl : list client) (st : store) (r : router) (cr : creds) (dc : 
           | inl d =>
               match find_client cl id with
               | None => RErr "server_error"
-              | Some c => if Bool.eqb authd (c_web c) then tokens_for c d else RErr "invalid_client"
+              | Some c => if prov_authenticated c authd then tokens_for c d else RErr "invalid_client"
               end
           end
       end
